@@ -1498,3 +1498,40 @@ fn get_glv_token_value_via_cpi<'info>(
 
 #[cfg(not(feature = "no-entrypoint"))]
 gmsol_utils::security_txt!("GMX-Solana Liquidity Provider Program");
+
+/// Verification hooks (runtime monitors in `/verif`): public forwarding wrappers only.
+#[cfg(gmsol_verif)]
+pub mod verif {
+    use anchor_lang::prelude::Result;
+
+    /// Number of weekly APY buckets.
+    pub const APY_BUCKETS: usize = super::APY_BUCKETS;
+    /// Seconds per year used to derive the per-second APY.
+    pub const SECONDS_PER_YEAR: u128 = super::SECONDS_PER_YEAR;
+    /// Seconds per weekly bucket.
+    pub const SECONDS_PER_WEEK: u128 = super::SECONDS_PER_WEEK;
+
+    /// Public wrapper of `compute_time_weighted_apy`.
+    pub fn compute_time_weighted_apy(
+        stake_start_time: i64,
+        now: i64,
+        apy_gradient: &[u128; APY_BUCKETS],
+    ) -> u128 {
+        super::compute_time_weighted_apy(stake_start_time, now, apy_gradient)
+    }
+
+    /// Public wrapper of `calculate_gt_reward_amount`.
+    pub fn calculate_gt_reward_amount(
+        staked_value_usd: u128,
+        duration_seconds: i64,
+        gt_apy_per_sec: u128,
+        inv_cost_integral: u128,
+    ) -> Result<u64> {
+        super::calculate_gt_reward_amount(
+            staked_value_usd,
+            duration_seconds,
+            gt_apy_per_sec,
+            inv_cost_integral,
+        )
+    }
+}
